@@ -14,7 +14,7 @@ use shared::query as kq;
 pub const DEF: PropDef = PropDef {
     id: "C16",
     level: "exploration",
-    rule: "totality: (i) every string of <=3 (thorough <=4) tokens over a 34-token alphabet (keywords, braces, variables, IRIs, prefixed names, literals incl. multi-byte, triple quotes, << >>, ^^, @, backslash, #, bare multi-byte char, newline) joined with and without spaces; (ii) every single mutation (delete char at i / insert or substitute each of 14 special chars incl. multi-byte at i / truncate at i) of a seed corpus of ~60 requests covering SELECT forms, all six update forms and the RULE / REGISTER / RETRIEVE / ML.PREDICT extensions, and every double mutation of the shortest seeds (thorough); each input goes through parse_combined_query, parse_combined_query_with_options(_, true), parse_sparql_query and parse_group_graph_pattern under catch_unwind: never a panic, and Ok from the three whole-request parsers implies nothing but whitespace/comments remains. Literal escape matrix: every escape kind (\\t \\n \\\" \\\\ \\' \\b \\f \\r \\uXXXX \\UXXXXXXXX) followed by every kind of next character (closing quote, ASCII, multi-byte, another escape) after three prefixes, as triple object, FILTER operand and VALUES term: accepted, fully consumed, and the token handed on verbatim. Faithfulness: every query of the C01 generator list and every update of the C03 alphabet, printed in 6 layouts (canonical, minimal whitespace, newlines+comments, lower-case and mixed-case keywords, ;/, abbreviations with optional dots omitted), must parse, and the parsed tree converted to the reference AST must equal the generated AST (nesting, pattern order, lexical terms, filter tree, modifiers) for every layout. Round 3 additions. Totality: the token alphabet is extended by 11 tokens ($x % | [ ] = ex:a%41 ex:a\\.b a && !); ~35 further seeds cover the grammars no seed reached (MODEL / NEURAL RELATION / TRAIN NEURAL RELATION with DATA and QUERY, PROB hybrid incl. auto:cost, RSP rules, window specs with PT durations / STEP / REPORT / TICK / WITH POLICY steal|wait|timeout, NOT atoms, RULE+ML.PREDICT, RETRIEVE EVERY LATENT, FILTER functions, bare-arithmetic FILTER, $-variables, %HH and backslash escapes in prefixed names, WHERE omitted, FROM with prefixed names, aggregates without wrapper / alias, ORDER BY closed by '}', trailing ';' before . } GRAPH, ';' ',' inside quad blocks, a dot after FILTER); every seed (old and new) additionally gets the single-character mutations with 8 more special characters (% $ | [ ] = , ;) and TOKEN-LEVEL mutations: a harness-side lexer splits the seed into tokens and, at every token boundary, each of the ~75 tokens of a vocabulary (every keyword of the SPARQL and extension grammars, brackets, punctuation, a variable, an IRI, a literal, a multi-byte char, a junk token) is inserted, and every token is deleted, duplicated and swapped with its successor. Faithfulness: five more text variants of every generated query and update, derived from the canonical print by token rewriting - Glued (no whitespace wherever two tokens cannot merge: SELECT?s{?s<http://e/p>?o}), NoWhere (WHERE keyword omitted in SELECT and sub-SELECT), Prefixed (a PREFIX prologue, every IRI as a prefixed name, in every position incl. FROM / GRAPH / VALUES / FILTER; the parsed tree is compared after expanding the names with the prologue the parser returned), TrailSemi (a ';' after every property list, before '.' and before '}'), Dollar ($ sigil: tree must be that of the ?-text modulo the sigil) - plus ';' ',' abbreviations inside update quad blocks, extra updates with shared subjects, and extra queries whose sub-SELECT ends in ORDER BY. Operator precedence: every binary tree of <= 3 operators over && and || on four comparison atoms (plain, first / last atom negated, whole negated), printed with only the parentheses the grammar requires (a || b && c, (a || b) && c, a && b && c): the parsed filter must equal the generated one modulo associativity of chains of one operator (both sides flattened). Term matrix: besides the verbatim-token clause, the whole tree of each matrix request is compared with the tree built by hand from the request shape (token in the right position, both occurrences, nothing else). Forms: hand-written requests for constructs the generator AST cannot print (FILTER functions, bare arithmetic with precedence and left-associativity, aggregates without wrapper/alias, 'a', prefixed FROM, ';' before GRAPH, ORDER BY closed by '}', $-variables, %HH / backslash local names, quad-block abbreviations, WHERE omitted, multi-column VALUES with UNDEF) in canonical / lower-case / glued spelling against hand-built trees. Report-only (counters, no verdict): a junk token inserted at every token boundary of every accepted seed, counting the inputs that are still accepted with an identical tree (text the parser skipped). Non-trivial = mutation/token inputs that are accepted by at least one parser, and every faithfulness case; distinct by input text.",
+    rule: "totality: (i) every string of <=3 (thorough <=4) tokens over a 34-token alphabet (keywords, braces, variables, IRIs, prefixed names, literals incl. multi-byte, triple quotes, << >>, ^^, @, backslash, #, bare multi-byte char, newline) joined with and without spaces; (ii) every single mutation (delete char at i / insert or substitute each of 14 special chars incl. multi-byte at i / truncate at i) of a seed corpus of ~60 requests covering SELECT forms, all six update forms and the RULE / REGISTER / RETRIEVE / ML.PREDICT extensions, and every double mutation of the shortest seeds (thorough); each input goes through parse_combined_query, parse_combined_query_with_options(_, true), parse_sparql_query and parse_group_graph_pattern under catch_unwind: never a panic, and Ok from the three whole-request parsers implies nothing but whitespace/comments remains. Literal escape matrix: every escape kind (\\t \\n \\\" \\\\ \\' \\b \\f \\r \\uXXXX \\UXXXXXXXX) followed by every kind of next character (closing quote, ASCII, multi-byte, another escape) after three prefixes, as triple object, FILTER operand and VALUES term: accepted, fully consumed, and the token handed on verbatim. Faithfulness: every query of the C01 generator list and every update of the C03 alphabet, printed in 6 layouts (canonical, minimal whitespace, newlines+comments, lower-case and mixed-case keywords, ;/, abbreviations with optional dots omitted), must parse, and the parsed tree converted to the reference AST must equal the generated AST (nesting, pattern order, lexical terms, filter tree, modifiers) for every layout. Round 3 additions. Totality: the token alphabet is extended by 11 tokens ($x % | [ ] = ex:a%41 ex:a\\.b a && !); ~35 further seeds cover the grammars no seed reached (MODEL / NEURAL RELATION / TRAIN NEURAL RELATION with DATA and QUERY, PROB hybrid incl. auto:cost, RSP rules, window specs with PT durations / STEP / REPORT / TICK / WITH POLICY steal|wait|timeout, NOT atoms, RULE+ML.PREDICT, RETRIEVE EVERY LATENT, FILTER functions, bare-arithmetic FILTER, $-variables, %HH and backslash escapes in prefixed names, WHERE omitted, FROM with prefixed names, aggregates without wrapper / alias, ORDER BY closed by '}', trailing ';' before . } GRAPH, ';' ',' inside quad blocks, a dot after FILTER); every seed (old and new) additionally gets the single-character mutations with 8 more special characters (% $ | [ ] = , ;) and TOKEN-LEVEL mutations: a harness-side lexer splits the seed into tokens and, at every token boundary, each of the ~75 tokens of a vocabulary (every keyword of the SPARQL and extension grammars, brackets, punctuation, a variable, an IRI, a literal, a multi-byte char, a junk token) is inserted, and every token is deleted, duplicated and swapped with its successor (thorough: also every PAIR of token-level mutations of the four shortest seeds and of one seed per extension grammar). Faithfulness: five more text variants of every generated query and update, derived from the canonical print by token rewriting - Glued (no whitespace wherever two tokens cannot merge: SELECT?s{?s<http://e/p>?o}), NoWhere (WHERE keyword omitted in SELECT and sub-SELECT), Prefixed (a PREFIX prologue, every IRI as a prefixed name, in every position incl. FROM / GRAPH / VALUES / FILTER; the parsed tree is compared after expanding the names with the prologue the parser returned), TrailSemi (a ';' after every property list, before '.' and before '}'), Dollar ($ sigil: tree must be that of the ?-text modulo the sigil) - plus ';' ',' abbreviations inside update quad blocks, extra updates with shared subjects, and extra queries whose sub-SELECT ends in ORDER BY. Operator precedence: every binary tree of <= 3 operators over && and || on four comparison atoms (plain, first / last atom negated, whole negated), printed with only the parentheses the grammar requires (a || b && c, (a || b) && c, a && b && c): the parsed filter must equal the generated one modulo associativity of chains of one operator (both sides flattened). Term matrix: besides the verbatim-token clause, the whole tree of each matrix request is compared with the tree built by hand from the request shape (token in the right position, both occurrences, nothing else). Forms: hand-written requests for constructs the generator AST cannot print (FILTER functions, bare arithmetic with precedence and left-associativity, aggregates without wrapper/alias, 'a', prefixed FROM, ';' before GRAPH, ORDER BY closed by '}', $-variables, %HH / backslash local names, quad-block abbreviations, WHERE omitted, multi-column VALUES with UNDEF) in canonical / lower-case / glued spelling against hand-built trees. Report-only (counters, no verdict): a junk token inserted at every token boundary of every accepted seed, counting the inputs that are still accepted with an identical tree (text the parser skipped). Non-trivial = mutation/token inputs that are accepted by at least one parser, and every faithfulness case; distinct by input text.",
     assumptions: &[
         "nesting deeper than the generator produces (stack exhaustion) is outside the explored space",
         "tree comparison is modulo the two normalisations the grammar itself makes unobservable: adjacent triples blocks merge, and a braced group with a single non-FILTER/BIND element is the element",
@@ -1897,6 +1897,39 @@ fn run(ctx: &Ctx) -> ShardOut {
         if ctx.expired() {
             out.capped.push("wall-clock cap hit in token-level mutations".into());
             break 'tm;
+        }
+    }
+    // thorough: every PAIR of token-level mutations of the four shortest seeds and of one seed per
+    // extension grammar (MODEL, NEURAL RELATION, ML.PREDICT, RULE with NOT)
+    if ctx.thorough() {
+        let mut all: Vec<&String> = seeds.iter().chain(xseeds.iter()).filter(|s| s.len() > 10).collect();
+        all.sort_by_key(|s| s.len());
+        let mut picks: Vec<&String> = all.iter().take(4).copied().collect();
+        for needle in ["MODEL \"m\" { ARCH", "NEURAL RELATION ex:pred USING MODEL \"m\" { INPUT", "ML.PREDICT( MODEL \"m\", INPUT { SELECT ?room", "RULE :N :-"] {
+            if let Some(s) = all.iter().find(|s| s.starts_with(needle)) {
+                picks.push(s);
+            }
+        }
+        out.count("double_token_mutation_seeds", if ctx.shard == 0 { picks.len() as u64 } else { 0 });
+        'dt: for seed in picks {
+            let mut first = Vec::new();
+            token_mutations(seed, &mut |m| first.push(m));
+            for m1 in first {
+                idx += 1;
+                if !ctx.mine(idx) {
+                    continue;
+                }
+                if ctx.expired() {
+                    out.capped.push("wall-clock cap hit in double token-level mutations".into());
+                    break 'dt;
+                }
+                let mut second = Vec::new();
+                token_mutations(&m1, &mut |m| second.push(m));
+                for m2 in second {
+                    out.count("double_token_mutation_inputs", 1);
+                    record_totality(&mut out, ctx, "double_token_mutation", &m2);
+                }
+            }
         }
     }
     // report only: junk token at every token boundary of every accepted seed
